@@ -53,7 +53,11 @@ def cut_strategies(rng, data, msg_len, tier):
 
 
 def mutate(rng, raw):
-    r = rng.randrange(9)
+    r = rng.randrange(10)
+    if r == 9:
+        # damaged chunk-size lines: int(x, 16) accepts signs, 0x, underscores and surrounding blanks
+        import re as _re
+        return _re.sub(rb'\r\n([0-9a-fA-F]+)(;[^\r]*)?\r\n', lambda m: b'\r\n' + rng.choice([b'-', b'+', b'0x', b' ', b'-0', b'1_']) + m.group(1) + rng.choice([b'', b' ', b'_0']) + b'\r\n', raw, count=1)
     if r == 0: return raw[:rng.randrange(0, len(raw) + 1)]
     if r == 1:
         i = rng.randrange(0, len(raw) + 1); return raw[:i] + b'\r\n' + raw[i:]
